@@ -592,3 +592,295 @@ Proof.
         specialize (P3 (ssz :: rest)). change (ea_owned_buf ea0) with (@nil N) in P3.
         cbn [app] in P3. rewrite P3. cbn. rewrite N.eqb_refl. perm_refl.
 Qed.
+Lemma owned_same_alloc ssz e e' : ea_alloc e' = ea_alloc e -> ea_owned ssz e' = ea_owned ssz e.
+Proof. intros H. unfold ea_owned, ea_blk. rewrite H. reflexivity. Qed.
+
+Lemma heap_owned ssz e e' ev rest :
+  (forall r, heap_run (ea_owned_buf e ++ r) ev = Some (ea_owned_buf e' ++ r)) ->
+  heap_run (ea_owned ssz e ++ rest) ev = Some (ea_owned ssz e' ++ rest).
+Proof. intros H. rewrite !ea_owned_split, <- !app_assoc. apply H. Qed.
+
+Lemma step_resize ssz e nrec reclen fill o :
+  ea_inv e -> 0 < reclen ->
+  exists x st' o' ev,
+    ea_step 2 4 2 ssz (OResize nrec reclen fill) (Some e) o = Ok (x, st', o', ev) /\
+    step_post ssz (OResize nrec reclen fill) (Some e) x st' ev.
+Proof.
+  intros Hi Hr. cbn [ea_step].
+  destruct (ea_resize_spec e nrec reclen o Hi Hr) as (ok & e1 & o1 & ev & H & P).
+  rewrite H. cbn [bind].
+  destruct P as [(Hrep & -> & -> & -> & ->) | (Hrep & P1 & P2 & P3)].
+  - eexists _, _, _, _. split; [reflexivity|]. post6.
+    + exact Hi.
+    + cbn [refused existsb orb]. rewrite Hrep. reflexivity.
+    + discriminate.
+    + intros _ Hc. exact Hc.
+    + discriminate.
+    + intros rest. cbn [heap_run]. perm_refl.
+  - destruct ok.
+    + destruct (P1 eq_refl) as (Hi1 & Hs1 & Hp & Hc & Hg & Hrf). clear P2.
+      pose proof Hi as (Hs & Hl & Ha). pose proof Hi1 as (Hs1' & Hl1 & Ha1).
+      destruct (N.le_gt_cases (ea_size e) (ea_size e1)) as [Hle|Hgt].
+      * destruct (ea_fill_spec e1 (ea_size e) fill Hi1 Hle) as (e2 & Hf & Hi2 & Hs2 & Ha2 & Habs).
+        rewrite Hf. cbn [bind]. eexists _, _, _, _. split; [reflexivity|]. post6.
+        -- exact Hi2.
+        -- rewrite Hrf, Hrep. cbn [negb orb]. do 2 f_equal. rewrite Habs.
+           rewrite pad_to_grow by (rewrite ea_abs_length by exact Hi; lia).
+           rewrite ea_abs_length by exact Hi. rewrite Hs1. f_equal.
+           unfold ea_abs. symmetry. apply Hp; lia.
+        -- rewrite Hrf. discriminate.
+        -- intros _ _. lia.
+        -- intros _. lia.
+        -- intros rest. rewrite (heap_owned ssz e e1) by exact P3.
+           rewrite (owned_same_alloc ssz e1 e2 Ha2). perm_refl.
+      * assert (Hf : ea_fill_from e1 (ea_size e) fill = Ok e1).
+        { unfold ea_fill_from. destruct (N.ltb_spec (ea_size e) (ea_size e1)); [lia|reflexivity]. }
+        rewrite Hf. cbn [bind]. eexists _, _, _, _. split; [reflexivity|]. post6.
+        -- exact Hi1.
+        -- rewrite Hrf, Hrep. cbn [negb orb]. do 2 f_equal.
+           rewrite pad_to_shrink by (rewrite ea_abs_length by exact Hi; lia).
+           unfold ea_abs. rewrite Hs1. rewrite firstn_firstn_le by lia. symmetry. apply Hp; lia.
+        -- rewrite Hrf. discriminate.
+        -- intros _ _. lia.
+        -- intros _. lia.
+        -- intros rest. rewrite (heap_owned ssz e e1) by exact P3. perm_refl.
+    + destruct (P2 eq_refl) as (-> & Hrf). clear P1.
+      eexists _, _, _, _. split; [reflexivity|]. post6.
+      * exact Hi.
+      * rewrite Hrf. reflexivity.
+      * intros _ _. split; reflexivity.
+      * rewrite Hrf. discriminate.
+      * discriminate.
+      * intros rest. rewrite (heap_owned ssz e e) by exact P3. perm_refl.
+Qed.
+
+Lemma step_append ssz e data nrec reclen o :
+  ea_inv e -> ea_op_ok (OAppend data nrec reclen) ->
+  exists x st' o' ev,
+    ea_step 2 4 2 ssz (OAppend data nrec reclen) (Some e) o = Ok (x, st', o', ev) /\
+    step_post ssz (OAppend data nrec reclen) (Some e) x st' ev.
+Proof.
+  intros Hi (Hr & Hd). cbn [ea_step].
+  destruct (ea_append_spec e data nrec reclen o Hi Hr Hd) as (ok & e1 & o1 & ev & H & P).
+  rewrite H. cbn [bind]. unfold fits in P. rewrite <- (ea_abs_length e Hi) in P.
+  fold (ideal_len (ea_abs e)) in P.
+  destruct P as [(Hf & -> & -> & -> & ->) | [(Hf & -> & -> & Hrf & Hh) | (Hf & -> & Hrf & Hi1 & Habs & Hs1 & Hc & Hg & Hh)]];
+    eexists _, _, _, _; (split; [reflexivity|]); post6.
+  - exact Hi.
+  - cbn [refused existsb orb]. rewrite <- negb_andb, Hf. reflexivity.
+  - discriminate.
+  - intros _ Hc. exact Hc.
+  - discriminate.
+  - intros rest. cbn [heap_run]. perm_refl.
+  - exact Hi.
+  - rewrite Hrf. reflexivity.
+  - intros _ _. split; reflexivity.
+  - rewrite Hrf. discriminate.
+  - discriminate.
+  - intros rest. rewrite (heap_owned ssz e e) by exact Hh. perm_refl.
+  - exact Hi1.
+  - rewrite Hrf. cbn [orb]. rewrite <- negb_andb, Hf. cbn [negb]. rewrite Habs. reflexivity.
+  - rewrite Hrf. discriminate.
+  - intros _ _. exact Hc.
+  - intros _. exact Hc.
+  - intros rest. rewrite (heap_owned ssz e e1) by exact Hh. perm_refl.
+Qed.
+
+Lemma step_shrink ssz e nrec reclen o :
+  ea_inv e -> 0 < reclen ->
+  exists x st' o' ev,
+    ea_step 2 4 2 ssz (OShrink nrec reclen) (Some e) o = Ok (x, st', o', ev) /\
+    step_post ssz (OShrink nrec reclen) (Some e) x st' ev.
+Proof.
+  intros Hi Hr. cbn [ea_step].
+  destruct (ea_shrink_spec e nrec reclen o Hi Hr) as (e1 & o1 & ev & H & Hi1 & Hs1 & Habs & Hc & Hh).
+  rewrite H. cbn [bind]. eexists _, _, _, _. split; [reflexivity|]. post6.
+  - exact Hi1.
+  - rewrite Habs. unfold ideal_len. rewrite ea_abs_length by exact Hi. reflexivity.
+  - discriminate.
+  - intros Hrf _. exact (Hc Hrf).
+  - exact Hc.
+  - intros rest. rewrite (heap_owned ssz e e1) by exact Hh. perm_refl.
+Qed.
+Lemma step_truncate ssz e o :
+  ea_inv e ->
+  exists x st' o' ev,
+    ea_step 2 4 2 ssz OTruncate (Some e) o = Ok (x, st', o', ev) /\
+    step_post ssz OTruncate (Some e) x st' ev.
+Proof.
+  intros Hi. cbn [ea_step].
+  destruct (ea_truncate_spec e o Hi) as (ok & e1 & o1 & ev & H & P1 & P2 & P3).
+  rewrite H. cbn [bind]. eexists _, _, _, _. split; [reflexivity|].
+  destruct ok.
+  - destruct (P1 eq_refl) as (Hrf & Hi1 & Hs1 & Ha1 & Hb1). post6.
+    + exact Hi1.
+    + rewrite Hrf. cbn [negb]. do 2 f_equal. symmetry. unfold ea_abs at 1. rewrite Hs1, Hb1.
+      unfold ea_abs. apply firstn_firstn_le. lia.
+    + rewrite Hrf. discriminate.
+    + intros _ _. rewrite Ha1, Hs1. apply N.div_le_upper_bound; lia.
+    + intros _. rewrite Ha1, Hs1. apply N.div_le_upper_bound; lia.
+    + intros rest. rewrite (heap_owned ssz e e1) by exact P3. perm_refl.
+  - destruct (P2 eq_refl) as (-> & Hrf). post6.
+    + exact Hi.
+    + rewrite Hrf. reflexivity.
+    + intros _ _. split; reflexivity.
+    + rewrite Hrf. discriminate.
+    + discriminate.
+    + intros rest. rewrite (heap_owned ssz e e) by exact P3. perm_refl.
+Qed.
+
+Lemma step_get ssz e pos reclen o :
+  ea_inv e -> 0 < reclen ->
+  exists x st' o' ev,
+    ea_step 2 4 2 ssz (OGet pos reclen) (Some e) o = Ok (x, st', o', ev) /\
+    step_post ssz (OGet pos reclen) (Some e) x st' ev.
+Proof.
+  intros Hi Hr. cbn [ea_step]. rewrite ea_getsize_ok by exact Hr. cbn [bind].
+  destruct (N.ltb_spec pos (ea_size e / reclen)) as [Hp|Hp].
+  - destruct (ea_get_record e pos reclen Hi Hr Hp) as (_ & Hrd). rewrite Hrd. cbn [bind].
+    eexists _, _, _, _. split; [reflexivity|]. post6.
+    + exact Hi.
+    + rewrite ideal_len_abs by exact Hi. apply N.ltb_lt in Hp. rewrite Hp. reflexivity.
+    + discriminate.
+    + intros _ Hc. exact Hc.
+    + intros [].
+    + intros rest. cbn [heap_run]. perm_refl.
+  - eexists _, _, _, _. split; [reflexivity|]. post6.
+    + exact Hi.
+    + rewrite ideal_len_abs by exact Hi. apply N.ltb_ge in Hp. rewrite Hp. reflexivity.
+    + discriminate.
+    + intros _ Hc. exact Hc.
+    + intros [].
+    + intros rest. cbn [heap_run]. perm_refl.
+Qed.
+
+Lemma step_getsize ssz e reclen o :
+  ea_inv e -> 0 < reclen ->
+  exists x st' o' ev,
+    ea_step 2 4 2 ssz (OGetsize reclen) (Some e) o = Ok (x, st', o', ev) /\
+    step_post ssz (OGetsize reclen) (Some e) x st' ev.
+Proof.
+  intros Hi Hr. cbn [ea_step]. rewrite ea_getsize_ok by exact Hr. cbn [bind].
+  eexists _, _, _, _. split; [reflexivity|]. post6.
+  - exact Hi.
+  - rewrite ideal_len_abs by exact Hi. reflexivity.
+  - discriminate.
+  - intros _ Hc. exact Hc.
+  - intros [].
+  - intros rest. cbn [heap_run]. perm_refl.
+Qed.
+
+Lemma step_export ssz e reclen o :
+  ea_inv e -> 0 < reclen ->
+  exists x st' o' ev,
+    ea_step 2 4 2 ssz (OExport reclen) (Some e) o = Ok (x, st', o', ev) /\
+    step_post ssz (OExport reclen) (Some e) x st' ev.
+Proof.
+  intros Hi Hr. cbn [ea_step]. unfold ea_export.
+  destruct (ea_truncate_spec e o Hi) as (ok & e1 & o1 & ev & H & P1 & P2 & P3).
+  rewrite H. cbn [bind]. destruct ok; cbn [negb].
+  - destruct (P1 eq_refl) as (Hrf & Hi1 & Hs1 & Ha1 & Hb1).
+    rewrite ea_getsize_ok by exact Hr. cbn [bind].
+    eexists _, _, _, _. split; [reflexivity|].
+    assert (Hrf' : refused (ev ++ [AFree ssz]) = false) by (rewrite refused_app, Hrf; reflexivity).
+    post6.
+    + exact I.
+    + rewrite Hrf'. rewrite ideal_len_abs by exact Hi. rewrite Hb1, Hs1. reflexivity.
+    + rewrite Hrf'. discriminate.
+    + intros _ _. exact I.
+    + intros [].
+    + intros rest. rewrite heap_run_app. rewrite (heap_owned ssz e e1) by exact P3.
+      rewrite ea_owned_split, <- app_assoc. cbn [app].
+      destruct (remove1_in ssz (ea_owned_buf e1) rest) as (h & Hh1 & Hh2).
+      cbn [heap_run heap_apply]. rewrite Hh1. eexists; split; [reflexivity|].
+      eapply Permutation_trans; [exact Hh2|]. apply Permutation_app_tail.
+      unfold ea_owned_buf, ea_blk. rewrite Ha1.
+      destruct Hi1 as (_ & Hl1 & _). rewrite Hl1, Ha1.
+      destruct (ea_size e =? 0); apply Permutation_refl.
+  - destruct (P2 eq_refl) as (-> & Hrf).
+    eexists _, _, _, _. split; [reflexivity|]. post6.
+    + exact Hi.
+    + rewrite Hrf. reflexivity.
+    + intros _ _. split; reflexivity.
+    + rewrite Hrf. discriminate.
+    + intros [].
+    + intros rest. rewrite (heap_owned ssz e e) by exact P3. perm_refl.
+Qed.
+
+Lemma step_exportdup ssz e reclen o :
+  ea_inv e -> 0 < reclen ->
+  exists x st' o' ev,
+    ea_step 2 4 2 ssz (OExportdup reclen) (Some e) o = Ok (x, st', o', ev) /\
+    step_post ssz (OExportdup reclen) (Some e) x st' ev.
+Proof.
+  intros Hi Hr. cbn [ea_step]. unfold ea_exportdup.
+  destruct (next o) as [b o1]. destruct b; cbn [negb].
+  - pose proof Hi as (Hs & Hl & Ha).
+    rewrite mem_read_ok by lia. cbn [bind N.to_nat skipn].
+    rewrite ea_getsize_ok by exact Hr. cbn [bind].
+    eexists _, _, _, _. split; [reflexivity|]. post6.
+    + exact Hi.
+    + cbn [refused existsb ev_refused negb orb]. rewrite ideal_len_abs by exact Hi. reflexivity.
+    + discriminate.
+    + intros _ Hc. exact Hc.
+    + intros [].
+    + intros rest. cbn [heap_run heap_apply]. eexists; split; [reflexivity|].
+      fold (ea_abs e). rewrite ea_abs_length by exact Hi.
+      cbn [app]. apply Permutation_middle.
+  - cbn [bind]. eexists _, _, _, _. split; [reflexivity|]. post6.
+    + exact Hi.
+    + reflexivity.
+    + intros _ _. split; reflexivity.
+    + discriminate.
+    + intros [].
+    + intros rest. cbn [heap_run heap_apply]. perm_refl.
+Qed.
+
+Lemma step_free ssz e o :
+  ea_inv e ->
+  exists x st' o' ev,
+    ea_step 2 4 2 ssz OFree (Some e) o = Ok (x, st', o', ev) /\
+    step_post ssz OFree (Some e) x st' ev.
+Proof.
+  intros Hi. cbn [ea_step]. eexists _, _, _, _. split; [reflexivity|].
+  assert (Hrf : refused (ea_free_ev ssz e) = false).
+  { unfold ea_free_ev, ea_free_buf_ev. destruct (ea_blk e); reflexivity. }
+  post6.
+  - exact I.
+  - reflexivity.
+  - rewrite Hrf. discriminate.
+  - intros _ _. exact I.
+  - intros [].
+  - intros rest. unfold ea_free_ev. rewrite heap_run_app.
+    rewrite ea_owned_split, <- app_assoc. rewrite heap_free_buf.
+    cbn. rewrite N.eqb_refl. perm_refl.
+Qed.
+
+(* ------------------------------------------------------------------ *)
+(* C12 M1 (one step): no Fault / AssertFail, invariant kept, result and contents as the ideal
+   array says, plus the C14 and capacity facts collected in [step_post] *)
+Theorem ea_step_ok ssz op st o :
+  st_inv st -> ea_op_ok op ->
+  exists x st' o' ev,
+    ea_step 2 4 2 ssz op st o = Ok (x, st', o', ev) /\ step_post ssz op st x st' ev.
+Proof.
+  intros Hi Hok. destruct st as [e|].
+  - destruct op; cbn [ea_op_ok st_inv] in *.
+    + (* init on an existing array: skipped *)
+      cbn [ea_step]. eexists _, _, _, _. split; [reflexivity|]. post6;
+        [exact Hi | reflexivity | discriminate | intros _ Hc; exact Hc | discriminate
+         | intros rest; cbn [heap_run]; perm_refl].
+    + apply step_resize; assumption.
+    + apply step_append; assumption.
+    + apply step_shrink; assumption.
+    + apply step_truncate; assumption.
+    + apply step_get; assumption.
+    + apply step_getsize; assumption.
+    + apply step_export; assumption.
+    + apply step_exportdup; assumption.
+    + apply step_free; assumption.
+  - destruct op; cbn [ea_op_ok] in *; try apply step_init; try assumption;
+      (cbn [ea_step]; eexists _, _, _, _; (split; [reflexivity|]); post6;
+        [exact I | reflexivity | discriminate | intros _ _; exact I | try discriminate; try (intros []); try (intros; exact I)
+         | intros rest; cbn [heap_run]; perm_refl]).
+Qed.
